@@ -180,9 +180,27 @@ func init() {
 			s, _ := v.(string)
 			return s == zzCrash
 		},
-		".zzStdin":  func(fr *frame, a []value) value { fr.i.ex.fs().stdin = a[0].(string); return nil },
-		".zzStdout": func(fr *frame, a []value) value { return fr.i.ex.out.String() },
-		".zzStderr": func(fr *frame, a []value) value { return fr.i.ex.fs().stderr.String() },
+		".zzCatchExit": func(fr *frame, a []value) value { fr.i.ex.catchExit = a[0].(bool); return nil },
+		".zzExited": func(fr *frame, a []value) value {
+			v := a[0]
+			for {
+				it, ok := v.(iface)
+				if !ok {
+					break
+				}
+				v = it.v
+			}
+			if s, ok := v.(string); ok && strings.HasPrefix(s, "zz-exit:") {
+				var c int
+				fmt.Sscanf(s, "zz-exit:%d", &c)
+				return tuple{c, true}
+			}
+			return tuple{0, false}
+		},
+		".zzEffects":  func(fr *frame, a []value) value { return fromStrSlice(fr.i.ex.effects) },
+		".zzStdin":    func(fr *frame, a []value) value { fr.i.ex.fs().stdin = a[0].(string); return nil },
+		".zzStdout":   func(fr *frame, a []value) value { return fr.i.ex.out.String() },
+		".zzStderr":   func(fr *frame, a []value) value { return fr.i.ex.fs().stderr.String() },
 		".zzExitCode": func(fr *frame, a []value) value { return fr.i.ex.exitCode },
 		// ---- os ----
 		"os.ReadFile": func(fr *frame, a []value) value {
@@ -394,10 +412,10 @@ func init() {
 			delete(f.files, p)
 			return iface{}
 		},
-		"(*os.fileStat).Mode":    func(fr *frame, a []value) value { return a[0].(*minfo).mode },
-		"(*os.fileStat).Size":    func(fr *frame, a []value) value { return int64(a[0].(*minfo).size) },
-		"(*os.fileStat).Name":    func(fr *frame, a []value) value { return a[0].(*minfo).name },
-		"(*os.fileStat).IsDir":   func(fr *frame, a []value) value { return false },
+		"(*os.fileStat).Mode":  func(fr *frame, a []value) value { return a[0].(*minfo).mode },
+		"(*os.fileStat).Size":  func(fr *frame, a []value) value { return int64(a[0].(*minfo).size) },
+		"(*os.fileStat).Name":  func(fr *frame, a []value) value { return a[0].(*minfo).name },
+		"(*os.fileStat).IsDir": func(fr *frame, a []value) value { return false },
 		"(io/fs.FileMode).Perm": func(fr *frame, a []value) value {
 			if m, ok := a[0].(symI); ok {
 				return symI{"(bvand " + m.t + " " + bvlit(0o777, 32) + ")", types.Uint32}
@@ -427,6 +445,53 @@ func init() {
 			writeTo(fr, a[0], s)
 			return tuple{len(s), iface{}}
 		},
+		// ---- process environment of pkg/cli ----
+		"bufio.NewReader": func(fr *frame, a []value) value {
+			p := new(value)
+			*p = structure{&opaque{"bufio.Reader"}}
+			return p
+		},
+		"(*bufio.Reader).ReadString": func(fr *frame, a []value) value {
+			f := fr.i.ex.fs()
+			fr.i.ex.effect("read")
+			delim := a[1].(byte)
+			k := strings.IndexByte(f.stdin, delim)
+			if k < 0 {
+				s := f.stdin
+				f.stdin = ""
+				return tuple{s, fr.i.newErr("EOF", nil)}
+			}
+			s := f.stdin[:k+1]
+			f.stdin = f.stdin[k+1:]
+			return tuple{s, iface{}}
+		},
+		"os/exec.Command": func(fr *frame, a []value) value {
+			p := new(value)
+			*p = zero(fr.i.stdType("os/exec", "Cmd", false))
+			return p
+		},
+		"(*os/exec.Cmd).Run": func(fr *frame, a []value) value { fr.i.ex.effect("exec"); return iface{} },
+		"encoding/xml.NewEncoder": func(fr *frame, a []value) value {
+			p := new(value)
+			*p = structure{a[0]}
+			return p
+		},
+		"(*encoding/xml.Encoder).Indent": func(fr *frame, a []value) value { return nil },
+		"(*encoding/xml.Encoder).Encode": func(fr *frame, a []value) value {
+			st := (*a[0].(*value)).(structure)
+			writeTo(fr, st[0], "<svg/>")
+			return iface{}
+		},
+		"cmp.Or[error]": func(fr *frame, a []value) value {
+			vs, _ := a[0].([]value)
+			for _, v := range vs {
+				if it, ok := v.(iface); ok && it.t != nil {
+					return it
+				}
+			}
+			return iface{}
+		},
+		"math/rand.Seed": func(fr *frame, a []value) value { return nil },
 		// ---- path/filepath: pure ----
 		"path/filepath.Dir":  func(fr *frame, a []value) value { return filepath.Dir(a[0].(string)) },
 		"path/filepath.Base": func(fr *frame, a []value) value { return filepath.Base(a[0].(string)) },
